@@ -39,7 +39,7 @@ type Inv struct {
 	EndSeq   int64
 	Outcome  int // 0 running, 1 ok, 2 returned error, 3 panicked, 4 returned nil
 	Outs     []*Entry
-	Shadow   bool // made on behalf of another provider built from the same collection (see World.Shadow)
+	Shadow   bool          // made on behalf of another provider built from the same collection (see World.Shadow)
 	InPtr    reflect.Value // the parameter object, when the constructor takes it by pointer
 }
 
@@ -155,22 +155,22 @@ type GatePoint struct {
 
 // World is the per-case universe: ledger, fault plan, registered functions.
 type World struct {
-	mu             sync.Mutex
-	Cfg            *Config
-	M              *Model
-	seq            atomic.Int64
-	serial         int
-	Entries        []*Entry
-	Invs           []*Inv
-	Count          map[int]int
-	Faults         map[[2]int]Fault
-	CloseErr       map[int]error
-	CloseFailRegs  map[int]bool // every instance of these registrations fails in Close
+	mu            sync.Mutex
+	Cfg           *Config
+	M             *Model
+	seq           atomic.Int64
+	serial        int
+	Entries       []*Entry
+	Invs          []*Inv
+	Count         map[int]int
+	Faults        map[[2]int]Fault
+	CloseErr      map[int]error
+	CloseFailRegs map[int]bool // every instance of these registrations fails in Close
 	// CancelBuildOnFault: the constructor that is made to fail first cancels the context its
 	// BuildWithContext runs under (a dial that gives up when the deadline of the build passes)
 	CancelBuildOnFault bool
 	BuildCancel        func()
-	ClosePanicRegs map[int]bool // the Close method of every instance of these registrations panics
+	ClosePanicRegs     map[int]bool // the Close method of every instance of these registrations panics
 	// CtxWaitRegs: the constructors of these registrations do not return until the context
 	// they were injected with is done (a dial that can only be aborted through its context);
 	// CtxWaiting receives a token each time one of them starts waiting.
@@ -544,6 +544,18 @@ func (w *World) decodeArg(d DepSpec, v reflect.Value) ArgRec {
 	return a
 }
 
+// scribbleSlice reverses a group slice a constructor was given, in place (Config.Scribble): the
+// slice is the constructor's own, like a slice it sorts by priority before keeping it.
+func scribbleSlice(d DepSpec, v reflect.Value) {
+	if d.Group == "" || v.Kind() != reflect.Slice || v.Len() < 2 {
+		return
+	}
+	sw := reflect.Swapper(v.Interface())
+	for i, j := 0, v.Len()-1; i < j; i, j = i+1, j-1 {
+		sw(i, j)
+	}
+}
+
 func (w *World) invoke(r *Reg, ft reflect.Type, args []reflect.Value) []reflect.Value {
 	inv := w.begin(r)
 	if r.UseIn {
@@ -560,10 +572,16 @@ func (w *World) invoke(r *Reg, ft reflect.Type, args []reflect.Value) []reflect.
 		}
 		for i, d := range r.Deps {
 			inv.Args = append(inv.Args, w.decodeArg(d, st.Field(i+1)))
+			if w.Cfg != nil && w.Cfg.Scribble && !r.PtrIn {
+				scribbleSlice(d, st.Field(i+1))
+			}
 		}
 	} else {
 		for i, d := range r.Deps {
 			inv.Args = append(inv.Args, w.decodeArg(d, args[i]))
+			if w.Cfg != nil && w.Cfg.Scribble {
+				scribbleSlice(d, args[i])
+			}
 		}
 	}
 	w.gate(GatePoint{Kind: GateCtorEnter, Inv: inv, Goid: inv.Goid})
